@@ -176,6 +176,8 @@ val release_old : obj option -> state -> result
 
 val step : orc -> instr -> state -> result
 
+val run : orc -> instr list -> state -> result
+
 val loop_on :
   orc -> nat -> nat -> nat -> (state -> result) -> nat -> state -> result
 
@@ -248,3 +250,17 @@ val gen_fun : nat -> stmt -> code
 val orc_of : nat option -> nat list -> orc
 
 val events_of : final -> (bool * event list) option
+
+val exit_call : orc -> bool -> bool -> nat -> nat list -> state -> result
+
+val exit_order : bool -> bool -> nat list
+
+val exc_fetch : nat -> nat -> nat -> state -> result
+
+val reraise3 : orc -> nat -> nat -> nat -> state -> result
+
+val try_cleanup : nat list -> state -> result
+
+val with_stat :
+  orc -> bool -> rand -> nat -> nat -> nat -> nat -> nat -> nat -> nat option
+  -> nat list -> (state -> result) -> state -> result
